@@ -551,6 +551,9 @@ def _reflected(eng, rsv, lsv, refl, st, line):
 
 def contains(eng, container, item, st, line=0):
     """``item in container``. Yields (st, z3 Bool|bool|Raise)."""
+    if type(container) is dict and getattr(eng, "libcls", None) is not None and (id(container) in st.ghost.get("lifted_dicts", {}) or (isinstance(item, SV) and not container)):
+        # (see setitem: a dict display that has received, or is asked about, a symbolic key lives in the heap)
+        container = SV(eng.lift(container, st), hint=dict)
     if not isinstance(container, SV):
         if isinstance(container, (tuple, list, set, frozenset, dict)) and not isinstance(item, SV) and eng.all_concrete([container, item]):
             yield st, item in container
@@ -747,6 +750,11 @@ def setitem(eng, obj, idx, v, st, line=0):
             idx = t.arg(0).as_long()
         elif z3.is_app(t) and t.decl().name() == "str" and z3.is_string_value(t.arg(0)):
             idx = t.arg(0).as_string()
+    if isinstance(obj, dict) and getattr(eng, "libcls", None) is not None and (isinstance(idx, SV) or id(obj) in st.ghost.get("lifted_dicts", {})):
+        # a dict display of the code under verification that receives a symbolic key: from here on it lives in the heap (the same
+        # Python object always lifts to the same address on a path), and every later access goes to that heap object
+        yield from eng.method_models[(dict, "__setitem__")].fn(eng, st, [SV(eng.lift(obj, st), hint=dict), idx, v], {})
+        return
     if isinstance(obj, dict) and not isinstance(idx, SV):
         obj[idx] = v  # concrete local dict (not shared across forks: copied below)
         yield st, None
